@@ -103,18 +103,19 @@ def path_of(seen, key):
     return path
 
 
-def validate_dedupe(res: BfsResult, expand):
+def validate_dedupe(res: BfsResult, expand, limit=24):
     """for sampled pairs of nodes merged by the state key: their successors must have equal
     keys, labels, verdicts and outcomes (one level).  -> (pairs checked, mismatches)"""
+    pairs = res.dedupe_pairs[:limit]
+    nodes = [n for pair in pairs for n in pair]
+    outs = core.pmap(expand, nodes, 1)
     bad = []
-    n = 0
-    for a, b in res.dedupe_pairs:
-        ra = [(l, k, bool(v), o) for l, _, k, v, o in expand(a)]
-        rb = [(l, k, bool(v), o) for l, _, k, v, o in expand(b)]
-        n += 1
+    for i, (a, b) in enumerate(pairs):
+        ra = [(l, k, bool(v), o) for l, _, k, v, o in outs[2 * i]]
+        rb = [(l, k, bool(v), o) for l, _, k, v, o in outs[2 * i + 1]]
         if ra != rb:
             bad.append((a, b))
-    return n, bad
+    return len(pairs), bad
 
 
 class DevResult:
